@@ -65,6 +65,6 @@ TNext ==
 
 TSpec == TInit /\ [][TNext]_tvars
 \* printed exactly once, in the final state
-Report == l <= Len(TraceLog) \/ PrintT(<<"BADLINES", ToJson(bad), "LINES", Len(TraceLog)>>)
+Report == l <= Len(TraceLog) \/ PrintT("@@BADLINES|" \o ToString(Len(TraceLog)) \o "|" \o ToJson(bad))
 Accepted == TLCGet("stats").diameter - 1 = Len(TraceLog)
 =============================================================================
